@@ -57,6 +57,8 @@ impl Store {
         let db_dir_fd;
         let flock;
 
+        #[cfg(feature = "verif")]
+        crate::verif::sched::point("open.check", &|| true);
         let should_create = !o.path.exists() || is_directory_empty(o.path.as_path())?;
         if should_create {
             // NB: note TOCTOU here. Deemed acceptable for this case.
@@ -65,6 +67,8 @@ impl Store {
             let mut options = OpenOptions::new();
             options.read(true);
             db_dir_fd = options.open(&o.path)?;
+            #[cfg(feature = "verif")]
+            crate::verif::sched::point("open.lock", &|| true);
             flock = flock::Flock::lock(&o.path, ".lock")?;
         }
         let db_dir_fd = Arc::new(db_dir_fd);
@@ -320,7 +324,11 @@ impl Drop for Shared {
         // because we need to ensure that the flock is only dropped after the IO workers are done.
         // Otherwise, these IO workers might still be writing to the files while another process
         // acquired the flock.
+        #[cfg(feature = "verif")]
+        crate::verif::sched::point("drop.io-shutdown", &|| true);
         self.io_pool.shutdown();
+        #[cfg(feature = "verif")]
+        crate::verif::sched::point("drop.unlock", &|| true);
         drop(self.flock.take());
     }
 }
@@ -399,14 +407,22 @@ fn create(page_pool: &PagePool, o: &crate::Options) -> anyhow::Result<(File, Flo
 
     // It's important that the lock is taken before creating modifying the directory contents.
     // Because otherwise different instances could fight for changes.
+    #[cfg(feature = "verif")]
+    crate::verif::sched::point("create.lock", &|| true);
     let flock = Flock::lock(&o.path, ".lock")?;
 
+    #[cfg(feature = "verif")]
+    crate::verif::sched::point("create.meta", &|| true);
     let meta_fd = std::fs::File::create(o.path.join("meta"))?;
     let meta = Meta::create_new(o.bitbox_seed, o.bitbox_num_pages);
     Meta::write(page_pool, &meta_fd, &meta)?;
     drop(meta_fd);
 
+    #[cfg(feature = "verif")]
+    crate::verif::sched::point("create.ht", &|| true);
     bitbox::create(o.path.clone(), o.bitbox_num_pages, o.preallocate_ht)?;
+    #[cfg(feature = "verif")]
+    crate::verif::sched::point("create.values", &|| true);
     beatree::create(&o.path)?;
 
     // As the last step, sync the directory. This makes sure that the directory is properly
